@@ -926,6 +926,7 @@ Proof.
   - reflexivity.
   - lia.
   - constructor.
+  - cbn [i_pc]. lia.
 Qed.
 
 End Sim.
